@@ -56,7 +56,7 @@ CHECKS.update({
              "and every call (events computed from call and outcome only), lifted to histories; CLOSED absorbing (no bytes, sends rejected, "
              "input refused); bind gating on client and server; BINDING restricts sends. The one deviation (F-C08c, pinned by the repo's tests) "
              "is carved out explicitly and proved as known_deviation. Model tied to the code by replaying generated joint histories."
-             " Added (Props/C08More, C10More): history refinement with the deviation hypothesis only along the run, and with no hypothesis at all up to BEFORE_OPEN≈OPENED (exact for clients and for any session that has left BEFORE_OPEN); bind gating and the frozen closed session at receive level; acceptance iffs for client requests. SECOND TIE (translator): the bookkeeping of _session.py (data_to_send, unbind, _send / _validate_outgoing_message of base, client and server, both _process_incoming_message, receive with the attached notification, the client request and server response methods) is translated method by method from the Python AST into Lean on every run (harness/py2lean_session.py -> Generated/SessionGen.lean; encoding and unpacking abstract) and Props/TiesSession.lean proves every generated method equal to the model function and one generated call equal to one model step for every Call constructor. Not in force => NOTE line, count-like search parameters x4; the property stays decided by the theorems + the correspondence tie.",
+             " Added (Props/C08More, C10More): history refinement with the deviation hypothesis only along the run, and with no hypothesis at all up to BEFORE_OPEN≈OPENED (exact for clients and for any session that has left BEFORE_OPEN); bind gating and the frozen closed session at receive level; acceptance iffs for client requests. SECOND TIE (translator): the bookkeeping of _session.py (data_to_send, unbind, _send / _validate_outgoing_message of base, client and server, both _process_incoming_message, receive with the attached notification, the client request and server response methods) is translated method by method from the Python AST into Lean on every run (harness/py2lean_session.py -> Generated/SessionGen.lean; encoding = encMsg and the one-message decoder abstract, the unpacking LOOPS of receive translated and proved equal to parseLoop in Props/TiesSessionRecv.lean) and Props/TiesSession.lean proves every generated method equal to the model function and one generated call equal to one model step for every Call constructor; Props/TiesSessionBridge.lean transfers the Reachable-state theorems to states reached by generated calls from a fresh session. Not in force => NOTE line, count-like search parameters x4; the property stays decided by the theorems + the correspondence tie.",
         technique="Lean 4 proof (refinement + invariants by induction on reachability) + correspondence on generated histories + Python-AST-to-Lean translator with equality theorems (generated = model) as a second tie",
         ref="DESIGN.md §4 C08",
     ),
@@ -64,7 +64,7 @@ CHECKS.update({
         text="Lean theorems: ids issued over any client history are first, first+1, … (refused calls consume none); returned id = id in the emitted "
              "bytes; searches ⊆ outstanding on every reachable client; a message is accepted iff it is a response whose id is outstanding; "
              "lifetime of searches vs other operations; a rejected message closes the session."
-             " Added (Props/C09More): ids are fresh; only a search call enters the search set and only its done message leaves it; for a whole delivery of several messages receive returns them iff the id rule (stated independently) accepts all of them and none is a notice, otherwise protocol error and CLOSED. SECOND TIE (translator): the bookkeeping of _session.py (data_to_send, unbind, _send / _validate_outgoing_message of base, client and server, both _process_incoming_message, receive with the attached notification, the client request and server response methods) is translated method by method from the Python AST into Lean on every run (harness/py2lean_session.py -> Generated/SessionGen.lean; encoding and unpacking abstract) and Props/TiesSession.lean proves every generated method equal to the model function and one generated call equal to one model step for every Call constructor. Not in force => NOTE line, count-like search parameters x4; the property stays decided by the theorems + the correspondence tie.",
+             " Added (Props/C09More): ids are fresh; only a search call enters the search set and only its done message leaves it; for a whole delivery of several messages receive returns them iff the id rule (stated independently) accepts all of them and none is a notice, otherwise protocol error and CLOSED. SECOND TIE (translator): the bookkeeping of _session.py (data_to_send, unbind, _send / _validate_outgoing_message of base, client and server, both _process_incoming_message, receive with the attached notification, the client request and server response methods) is translated method by method from the Python AST into Lean on every run (harness/py2lean_session.py -> Generated/SessionGen.lean; encoding = encMsg and the one-message decoder abstract, the unpacking LOOPS of receive translated and proved equal to parseLoop in Props/TiesSessionRecv.lean) and Props/TiesSession.lean proves every generated method equal to the model function and one generated call equal to one model step for every Call constructor; Props/TiesSessionBridge.lean transfers the Reachable-state theorems to states reached by generated calls from a fresh session. Not in force => NOTE line, count-like search parameters x4; the property stays decided by the theorems + the correspondence tie.",
         technique="Lean 4 proof (invariants over reachable states) + correspondence on generated histories + Python-AST-to-Lean translator with equality theorems (generated = model) as a second tie",
         ref="DESIGN.md §4 C09",
     ),
@@ -72,14 +72,14 @@ CHECKS.update({
         text="Lean theorems: a refused send call leaves the outgoing bytes unchanged and fails with the library error; a server response is "
              "accepted only for an outstanding id; a final response retires it so any second response is rejected with no wire effect; "
              "entries/references keep it open."
-             " Added (Props/C10More): response_accepted_iff (not closed ∧ binding restriction ∧ id outstanding — nothing else), effects of accepted and refused calls on the whole session, and a ghost characterisation of 'outstanding' from calls and outcomes only. SECOND TIE (translator): the bookkeeping of _session.py (data_to_send, unbind, _send / _validate_outgoing_message of base, client and server, both _process_incoming_message, receive with the attached notification, the client request and server response methods) is translated method by method from the Python AST into Lean on every run (harness/py2lean_session.py -> Generated/SessionGen.lean; encoding and unpacking abstract) and Props/TiesSession.lean proves every generated method equal to the model function and one generated call equal to one model step for every Call constructor. Not in force => NOTE line, count-like search parameters x4; the property stays decided by the theorems + the correspondence tie.",
+             " Added (Props/C10More): response_accepted_iff (not closed ∧ binding restriction ∧ id outstanding — nothing else), effects of accepted and refused calls on the whole session, and a ghost characterisation of 'outstanding' from calls and outcomes only. SECOND TIE (translator): the bookkeeping of _session.py (data_to_send, unbind, _send / _validate_outgoing_message of base, client and server, both _process_incoming_message, receive with the attached notification, the client request and server response methods) is translated method by method from the Python AST into Lean on every run (harness/py2lean_session.py -> Generated/SessionGen.lean; encoding = encMsg and the one-message decoder abstract, the unpacking LOOPS of receive translated and proved equal to parseLoop in Props/TiesSessionRecv.lean) and Props/TiesSession.lean proves every generated method equal to the model function and one generated call equal to one model step for every Call constructor; Props/TiesSessionBridge.lean transfers the Reachable-state theorems to states reached by generated calls from a fresh session. Not in force => NOTE line, count-like search parameters x4; the property stays decided by the theorems + the correspondence tie.",
         technique="Lean 4 proof (case analysis of the step function) + correspondence on generated histories + Python-AST-to-Lean translator with equality theorems (generated = model) as a second tie",
         ref="DESIGN.md §4 C10",
     ),
     "C12": dict(
         text="Lean theorem queue: over any history from any session, all drained bytes ++ pending bytes = initially pending ++ encodings of exactly "
              "the accepted sends in call order, for every drain amount (None, 0, partial, oversized, negative via Python slice semantics); drain "
-             "changes nothing but the pending bytes. SECOND TIE (translator): the bookkeeping of _session.py (data_to_send, unbind, _send / _validate_outgoing_message of base, client and server, both _process_incoming_message, receive with the attached notification, the client request and server response methods) is translated method by method from the Python AST into Lean on every run (harness/py2lean_session.py -> Generated/SessionGen.lean; encoding and unpacking abstract) and Props/TiesSession.lean proves every generated method equal to the model function and one generated call equal to one model step for every Call constructor. Not in force => NOTE line, count-like search parameters x4; the property stays decided by the theorems + the correspondence tie.",
+             "changes nothing but the pending bytes. SECOND TIE (translator): the bookkeeping of _session.py (data_to_send, unbind, _send / _validate_outgoing_message of base, client and server, both _process_incoming_message, receive with the attached notification, the client request and server response methods) is translated method by method from the Python AST into Lean on every run (harness/py2lean_session.py -> Generated/SessionGen.lean; encoding = encMsg and the one-message decoder abstract, the unpacking LOOPS of receive translated and proved equal to parseLoop in Props/TiesSessionRecv.lean) and Props/TiesSession.lean proves every generated method equal to the model function and one generated call equal to one model step for every Call constructor; Props/TiesSessionBridge.lean transfers the Reachable-state theorems to states reached by generated calls from a fresh session. Not in force => NOTE line, count-like search parameters x4; the property stays decided by the theorems + the correspondence tie.",
         technique="Lean 4 proof (one-step FIFO lemma + induction over the history) + correspondence on generated histories + Python-AST-to-Lean translator with equality theorems (generated = model) as a second tie",
         ref="DESIGN.md §4 C12",
     ),
@@ -204,7 +204,7 @@ CHECKS.update({
              "as equal values; (2) no protocol error other than after the client's unbind; (3) at quiescence both sides agree on the state class "
              "(BEFORE_OPEN ≈ OPENED) and on the operations in progress. Full byte-granular statement (not only message-granular). Admissibility = "
              "calls accepted, responses of the matching kind, no server-initiated termination."
-             " Added (Props/C11More): witnesses of AdmissibleRun, error_only_at_termination (every step outcome is fine or one of three named termination errors), closed_agreement, and the notice-of-disconnection termination. SECOND TIE (translator): the bookkeeping of _session.py (data_to_send, unbind, _send / _validate_outgoing_message of base, client and server, both _process_incoming_message, receive with the attached notification, the client request and server response methods) is translated method by method from the Python AST into Lean on every run (harness/py2lean_session.py -> Generated/SessionGen.lean; encoding and unpacking abstract) and Props/TiesSession.lean proves every generated method equal to the model function and one generated call equal to one model step for every Call constructor. Not in force => NOTE line, count-like search parameters x4; the property stays decided by the theorems + the correspondence tie.",
+             " Added (Props/C11More): witnesses of AdmissibleRun, error_only_at_termination (every step outcome is fine or one of three named termination errors), closed_agreement, and the notice-of-disconnection termination. SECOND TIE (translator): the bookkeeping of _session.py (data_to_send, unbind, _send / _validate_outgoing_message of base, client and server, both _process_incoming_message, receive with the attached notification, the client request and server response methods) is translated method by method from the Python AST into Lean on every run (harness/py2lean_session.py -> Generated/SessionGen.lean; encoding = encMsg and the one-message decoder abstract, the unpacking LOOPS of receive translated and proved equal to parseLoop in Props/TiesSessionRecv.lean) and Props/TiesSession.lean proves every generated method equal to the model function and one generated call equal to one model step for every Call constructor; Props/TiesSessionBridge.lean transfers the Reachable-state theorems to states reached by generated calls from a fresh session. Not in force => NOTE line, count-like search parameters x4; the property stays decided by the theorems + the correspondence tie.",
         technique="Lean 4 proof (channel invariant + bookkeeping invariant over ghost logs, induction over the history) + correspondence on joint histories + Python-AST-to-Lean translator with equality theorems (generated = model) as a second tie",
         ref="DESIGN.md §4 C11",
     ),
